@@ -739,21 +739,23 @@ type lsFn struct { // per top-level function
 	sec        int
 	accIdx     []int
 	units      []string // the function itself and the `go func` literals in it
+	report     bool     // report the function as not followed even if it touches nothing else that is tracked
 }
 
 type lsWalker struct {
-	a      *lsAnalysis
-	pkg    *lsPkg
-	top    *lsFn
-	label  string
-	env    map[string]*lsType
-	alias  map[string]*lsLoc
-	held   []lsHeld
-	loops  []lsFrame
-	stack  []string // inlined callees
-	inLit  int      // > 0 inside a function literal
-	unit   string   // the thread-level code unit being walked: the function, or a `go func` literal in it
-	noWait int      // > 0 inside the communication clause of a multi-way select: a receive there is not a wait
+	a       *lsAnalysis
+	pkg     *lsPkg
+	top     *lsFn
+	label   string
+	env     map[string]*lsType
+	alias   map[string]*lsLoc
+	held    []lsHeld
+	loops   []lsFrame
+	stack   []string // inlined callees
+	inLit   int      // > 0 inside a function literal
+	unit    string   // the thread-level code unit being walked: the function, or a `go func` literal in it
+	noWait  int      // > 0 inside the communication clause of a multi-way select: a receive there is not a wait
+	inDefer int      // > 0 inside a deferred function literal: the locks held when it runs are not known
 }
 
 func (a *lsAnalysis) walkFunc(p *lsPkg, key string, fd *ast.FuncDecl) {
@@ -771,7 +773,7 @@ func (a *lsAnalysis) walkFunc(p *lsPkg, key string, fd *ast.FuncDecl) {
 		for _, i := range top.accIdx {
 			a.out.accs[i].unknown = true
 		}
-		touches := len(top.accIdx) > 0
+		touches := len(top.accIdx) > 0 || top.report
 		for _, u := range top.units {
 			if a.direct[u] != nil || a.waitsD[u] != nil {
 				touches = true
@@ -1393,6 +1395,9 @@ func (w *lsWalker) syncCall(c *ast.CallExpr) bool {
 
 // this code unit blocks here until the group has finished
 func (w *lsWalker) wait(group string, p token.Pos) {
+	if w.inDefer > 0 {
+		w.giveUp("wait inside a deferred function literal (the locks held when it runs are not followed)", p)
+	}
 	ps, _ := w.pos(p)
 	if w.a.waitsD[w.unit] == nil {
 		w.a.waitsD[w.unit] = map[string]bool{}
@@ -1460,6 +1465,9 @@ func (w *lsWalker) noteCall(c *ast.CallExpr) {
 				gs = append(gs, g)
 			}
 			sort.Strings(gs)
+			if len(gs) > 0 && w.inDefer > 0 {
+				w.giveUp("call that may wait inside a deferred function literal (the locks held when it runs are not followed)", c.Pos())
+			}
 			for _, g := range gs {
 				w.a.out.waits = append(w.a.out.waits, lsWait{w.who() + " -> " + k[strings.Index(k, "|")+1:] + w.a.chain(k, g, w.a.waitsD1), w.heldNames(), g, ps})
 			}
@@ -1785,11 +1793,13 @@ func (w *lsWalker) deferredOrGo(c *ast.CallExpr) {
 	}
 	switch f := c.Fun.(type) {
 	case *ast.FuncLit:
-		// runs later (at function exit / in another goroutine): nothing is known to be held
+		// runs later (at function exit): nothing is known to be held
 		saved, savedLoops := w.held, w.loops
 		w.held, w.loops = nil, nil
 		w.inLit++
+		w.inDefer++
 		w.block(f.Body)
+		w.inDefer--
 		w.inLit--
 		w.held, w.loops = saved, savedLoops
 	case *ast.SelectorExpr:
@@ -2015,6 +2025,11 @@ func (w *lsWalker) rd(e ast.Expr) {
 			w.giveUp("mutex field used other than by Lock/Unlock/RLock/RUnlock statements", x.Pos())
 			return
 		}
+		if p, tn := w.a.namedOf(w.typeOf(x.X)); p != nil && p.wgs[tn][x.Sel.Name] {
+			w.giveUp("WaitGroup field used other than by Add/Done/Wait calls", x.Pos())
+			w.top.report = true
+			return
+		}
 		if w.useBase(x.X, "KRd") {
 			return
 		}
@@ -2204,7 +2219,7 @@ func (w *lsWalker) inline(key string, fd *ast.FuncDecl, c *ast.CallExpr) {
 	}
 	name := key[strings.Index(key, "|")+1:]
 	cw := &lsWalker{a: w.a, pkg: w.pkg, top: w.top, label: w.label + ">" + name, env: map[string]*lsType{}, alias: map[string]*lsLoc{},
-		held: lsCopyHeld(w.held), stack: append(append([]string{}, w.stack...), sig), inLit: w.inLit, unit: w.unit, noWait: w.noWait}
+		held: lsCopyHeld(w.held), stack: append(append([]string{}, w.stack...), sig), inLit: w.inLit, unit: w.unit, noWait: w.noWait, inDefer: w.inDefer}
 	cw.bindParams(fd, c.Args, w)
 	n := len(cw.held)
 	cw.block(fd.Body)
